@@ -205,7 +205,7 @@ def main(tier, n=None):
     rep = common.Report(PROP, tier, "exploration", RULE)
     rep.assumptions = ["sequential invocations only (the property's quantifier)", "the only thing replaced is the `time` object referenced by conductor.execution.version_index; 'real' clock cases patch nothing"]
     rng = common.rng_for("c08", common.base_seed())
-    total = n or (80 if tier == "quick" else 1500)
+    total = n or (250 if tier == "quick" else 3000)
     cases = [gen_case(rng) for _ in range(total)]
     cli.warm()
     res = common.parallel_map(eval_case, cases, timeout=900)
